@@ -27,7 +27,8 @@ func cmdArrayRun(args []string) {
 	fs := flag.NewFlagSet("array-run", flag.ExitOnError)
 	in := fs.String("in", "", "histories ndjson (first line cfg)")
 	out := fs.String("out", "", "trace ndjson")
-	mode := fs.String("mode", "edge", "edge|full")
+	mode := fs.String("mode", "edge", "edge|full|tail")
+	tail := fs.Int("tail", 40, "tail mode: number of final operations recorded")
 	probe := fs.String("probe", "", "comma list of probes run at the end of every history: iter,partial,batch,copy,mutiter")
 	pseed := fs.Int64("seed", 1, "seed for probe choices")
 	fs.Parse(args)
@@ -63,6 +64,9 @@ func cmdArrayRun(args []string) {
 		from := 0
 		if *mode == "edge" {
 			from = len(ops) - 1
+		}
+		if *mode == "tail" && len(ops) > *tail {
+			from = len(ops) - *tail
 		}
 		for _, op := range ops[:from] {
 			w.ExecSilent(op)
